@@ -1,4 +1,5 @@
 # SPDX-License-Identifier: MIT
+import warnings
 from copy import copy
 from enum import Enum
 from typing import Dict, Generator, List, Optional, Tuple, Union
@@ -183,7 +184,12 @@ class VariantMatcher:
 
         for cur_response in all_responses:
             try:
-                decoded_vals = cur_response.decode(response_bytes)
+                with warnings.catch_warnings():
+                    # a coded constant that does not exhibit its value is only
+                    # reported as a warning by the decoder. here it means that
+                    # the response object does not describe the received data
+                    warnings.simplefilter("error", category=DecodeError)
+                    decoded_vals = cur_response.decode(response_bytes)
             except DecodeError:
                 # the current response object could not decode the received
                 # data. Ignore it.
